@@ -80,6 +80,8 @@ def sx_int(*a, **k):
         x = a[0]
         if isinstance(x, SInt):
             return x
+        if hasattr(x, "as_int_term"):       # C integer of the KX runtime: int() is the identity on its value
+            return x if not isinstance(x.e, int) else x.e
         if isinstance(x, SStr):
             s = x.strip()
             if isinstance(s, str):
